@@ -37,6 +37,9 @@ type fnInfo struct {
 	Args []string // parameter names from the documentation signature (hints for the value kind)
 	Low  int      // required arguments (documentation signature; -1 unknown)
 	High int      // maximal arguments, -1 = unbounded
+	// position of the optional `inputs?` parameter (the command reads the value
+	// channel of its input port when the argument is absent), -1 = none
+	InputsAt int
 }
 
 // moduleNames reads the modules installed by mods.AddTo from its source (the
@@ -88,7 +91,7 @@ func docSignatures(repo string) map[string]fnInfo {
 			}
 			for _, m := range sigRe.FindAllStringSubmatch(string(data), -1) {
 				name := strings.Trim(m[1], "'")
-				fi := fnInfo{Name: prefix(f) + name}
+				fi := fnInfo{Name: prefix(f) + name, InputsAt: -1}
 				for _, tok := range strings.Fields(m[2]) {
 					switch {
 					case strings.HasPrefix(tok, "&"):
@@ -96,15 +99,22 @@ func docSignatures(repo string) map[string]fnInfo {
 						fi.Opts = append(fi.Opts, o)
 					case strings.HasPrefix(tok, "@"):
 						fi.High = -1
+						fi.Args = append(fi.Args, tok[1:])
 					case strings.HasSuffix(tok, "?") || strings.Contains(tok, "="):
 						if fi.High >= 0 {
 							fi.High++
+						}
+						name, _, _ := strings.Cut(strings.TrimSuffix(tok, "?"), "=")
+						fi.Args = append(fi.Args, name)
+						if strings.HasPrefix(name, "input") {
+							fi.InputsAt = len(fi.Args) - 1
 						}
 					default:
 						fi.Low++
 						if fi.High >= 0 {
 							fi.High++
 						}
+						fi.Args = append(fi.Args, tok)
 					}
 				}
 				sigs[fi.Name] = fi
@@ -137,7 +147,7 @@ func surface(repo string) ([]fnInfo, error) {
 		for _, n := range names {
 			fi, ok := sigs[prefix+n]
 			if !ok {
-				fi = fnInfo{Low: -1, High: -1}
+				fi = fnInfo{Low: -1, High: -1, InputsAt: -1}
 			}
 			fi.Name, fi.Mod = prefix+n, mod
 			fns = append(fns, fi)
